@@ -320,6 +320,39 @@ def discharge_unreachable_closure(mir, s):
         recv[2], ", ".join(repr(chr(v)) if 32 <= v < 127 else str(v) for v in sorted(set(vals))))
 
 
+_CALLERS = {}
+
+
+def sole_caller(mir, fn):
+    """the single workspace function that calls (or mentions as a fn item) `fn`, or None"""
+    key = id(mir)
+    if key not in _CALLERS:
+        cm = {}
+        for n in mir.bodies:
+            if n.endswith("#promoted"):
+                continue
+            b = mir.body(n)
+            if b is None:
+                continue
+            for bb, t in b.calls():
+                d, rd, ga, f2 = callee(t)
+                for x in (rd, d):
+                    if x and x in mir.bodies:
+                        cm.setdefault(x, set()).add(n.split("::{closure")[0])
+            for bl in b.blocks:
+                for st in bl["stmts"]:
+                    if st["k"] == "assign":
+                        for c in _fn_consts(st["rv"]):
+                            tgt = (c.get("resolved") or {}).get("def") or c["def"]
+                            if tgt in mir.bodies:
+                                cm.setdefault(tgt, set()).add(n.split("::{closure")[0])
+        _CALLERS[key] = cm
+    cs = _CALLERS[key].get(fn.split("::{closure")[0], set()) - {fn.split("::{closure")[0]}
+    if len(cs) == 1:
+        return next(iter(cs))
+    return None
+
+
 def check_paths(ctx, rep, rule, roots, stop=(), label=None, extra_discharge=None, site_filter=None):
     """A2 as a rule: every panic site reachable from roots must be discharged mechanically, reviewed, or a known finding"""
     inv = Inventory(ctx.mir, roots, stop)
@@ -359,6 +392,20 @@ def check_paths(ctx, rep, rule, roots, stop=(), label=None, extra_discharge=None
             for k2, e2 in reviewed.items():
                 if k2.endswith(":*") and rkey.startswith(k2[:-1]):
                     rv = e2
+        if rv is None:
+            # a helper whose only caller in the workspace is G is part of G: G's reviewed wildcard entries cover it
+            f = s["fn"]
+            for _ in range(3):
+                cs = sole_caller(ctx.mir, f)
+                if cs is None:
+                    break
+                k3 = "%s:%s:%s:" % (cs, s["kind"], s["what"].split("::")[-1])
+                for k2, e2 in reviewed.items():
+                    if k2.endswith(":*") and k3.startswith(k2[:-1]):
+                        rv = dict(e2, why=e2["why"] + " [%s is a helper called only from %s]" % (s["fn"], cs))
+                if rv is not None:
+                    break
+                f = cs
         if rv is not None:
             n_rev += 1
             rep.check(rule, key, True, "", "%s:%s" % (s["file"], s["line"]), sample={"site": key, "reviewed": rv["why"]})
